@@ -469,6 +469,16 @@ fn sw_two_torsion_point<P: sw::SWCurveConfig>(g: &mut G<'_>) -> Option<sw::Affin
     None
 }
 
+/// r * Q for a random curve point Q: a point of the cofactor part of the group (of small
+/// order when the cofactor is small - orders 2, 4, 8 on Jubjub-like curves).
+fn sw_cofactor_part_point<P: sw::SWCurveConfig>(g: &mut G<'_>) -> sw::Affine<P> {
+    let q = sw_random_curve_point::<P>(g);
+    match ref_sw_mul::<P>(q.x, q.y, &scalar_modulus::<P>()) {
+        Some((x, y)) if ref_sw_on_curve::<P>(&x, &y) => sw::Affine::<P>::new_unchecked(x, y),
+        _ => q,
+    }
+}
+
 fn gen_scalar<F: PrimeField>(g: &mut G<'_>) -> F {
     match g.rng.below(8) {
         0 => F::one(),
@@ -504,6 +514,7 @@ fn gen_sw_affine<P: sw::SWCurveConfig>(g: &mut G<'_>) -> sw::Affine<P> {
                 sw_random_curve_point::<P>(g)
             }
         },
+        10 if g.invalid_ok && !P::cofactor_is_one() => sw_cofactor_part_point::<P>(g),
         7 | 8 | 9 if g.invalid_ok && !P::COFACTOR.is_empty() && P::COFACTOR[0] & 1 == 0 => {
             sw_two_torsion_point::<P>(g).unwrap_or_else(|| sw_random_curve_point::<P>(g))
         },
@@ -806,6 +817,32 @@ pub fn ref_te_valid<P: te::TECurveConfig>(x: &P::BaseField, y: &P::BaseField) ->
     ref_te_mul_is_identity::<P>(*x, *y, &scalar_modulus::<P>())
 }
 
+/// k*(x,y) in affine coordinates by the reference law; None when the law degenerates
+/// (incomplete curve: the result is a point at infinity of the twisted model) .
+fn ref_te_mul_affine<P: te::TECurveConfig>(x: P::BaseField, y: P::BaseField, k: &BigUint) -> Option<(P::BaseField, P::BaseField)> {
+    let base = Proj { x, y, z: P::BaseField::ONE };
+    let mut acc = Proj { x: P::BaseField::ZERO, y: P::BaseField::ONE, z: P::BaseField::ONE };
+    for i in (0..k.bits()).rev() {
+        acc = te_add::<P>(&acc, &acc)?;
+        if k.bit(i) {
+            acc = te_add::<P>(&acc, &base)?;
+        }
+    }
+    let zi = acc.z.inverse()?;
+    Some((acc.x * zi, acc.y * zi))
+}
+
+/// r * Q for a random curve point Q (reference arithmetic): a point of small order, when it is affine.
+fn te_small_order_point<P: te::TECurveConfig>(g: &mut G<'_>) -> Option<te::Affine<P>> {
+    let q = te_random_curve_point::<P>(g);
+    let (x, y) = ref_te_mul_affine::<P>(q.x, q.y, &scalar_modulus::<P>())?;
+    if ref_te_on_curve::<P>(&x, &y) {
+        Some(te::Affine::<P>::new_unchecked(x, y))
+    } else {
+        None
+    }
+}
+
 fn te_random_curve_point<P: te::TECurveConfig>(g: &mut G<'_>) -> te::Affine<P> {
     loop {
         let y = P::BaseField::rand(g.rng);
@@ -844,6 +881,8 @@ fn gen_te_affine<P: te::TECurveConfig>(g: &mut G<'_>) -> te::Affine<P> {
         },
         // the point of order two: x = -x tie, outside the subgroup
         4 if g.invalid_ok => te::Affine::<P>::new_unchecked(P::BaseField::ZERO, -P::BaseField::ONE),
+        // r * Q: a point of small order (2, 4, 8: y = 0 or x = 0 among them)
+        5 | 6 if g.invalid_ok => te_small_order_point::<P>(g).unwrap_or_else(|| te_random_curve_point::<P>(g)),
         _ => (P::GENERATOR * gen_scalar::<P::ScalarField>(g)).into_affine(),
     }
 }
@@ -970,7 +1009,14 @@ fn te_foreign<P: te::TECurveConfig>(g: &mut G<'_>, c: Compress) -> Option<(Vec<u
             let y = P::BaseField::rand(g.rng);
             Some((te_encode::<P>(&x, &y, Compress::No), "off-curve (uncompressed layout)"))
         },
-        3 => Some((te_encode::<P>(&P::BaseField::ZERO, &-P::BaseField::ONE, c), "order-2 point (0,-1)")),
+        3 => {
+            if g.rng.chance(1, 2) {
+                Some((te_encode::<P>(&P::BaseField::ZERO, &-P::BaseField::ONE, c), "order-2 point (0,-1)"))
+            } else {
+                let t = te_small_order_point::<P>(g)?;
+                Some((te_encode::<P>(&t.x, &t.y, c), "small-order point r*Q"))
+            }
+        },
         4 => {
             // a valid point plus the order-2 point: on curve, outside subgroup
             let p = (P::GENERATOR * gen_scalar::<P::ScalarField>(g)).into_affine();
